@@ -84,7 +84,13 @@ def check(repo: Repo, rep: Report) -> None:
     counters = names_augmented(on_next, ast.Add)
     queues = [q for q in locals_by_init(root, lambda v: isinstance(v, ast.List) and not v.elts)
               if any(isinstance(x.node, ast.Call) and dotted(x.node.func) == f"{q}.append" for x in sites(on_next))]
-    rep.require(len(counters) == 1 and len(queues) == 1, "merge_: active counter / waiting queue")
+    if len(counters) != 1 or len(queues) != 1:
+        rep.ob("J2-max-concurrent", root, "per-subscription active counter and FIFO waiting list", False,
+               "merge(max_concurrent): the active-inner counter (incremented by the outer element handler) and the waiting list "
+               "(an empty list allocated in subscribe that the handler appends to) are not both per-subscription state of "
+               "subscribe: the concurrency limit / the start order of queued inners is not what the property describes")
+        TC.composite_uses(repo, rep, "J3-delegations", COMPOSITES)
+        return
     cnt, queue = counters[0], queues[0]
     is_cnt = lambda x: cell_name(x) == cnt
     ok = False
